@@ -34,4 +34,4 @@ DELIVERABLES in {out}/ :
 - demo.py
 - meta.json   — {{"property": "{pid}", "summary": "<what was changed and why it breaks the property>", "needs": "<what is needed for it to manifest>", "files": ["mysql_mimic/..."]}}
 
-Before finishing: (1) `git -C {wt} stash` → run demo.py → must exit 0; `git -C {wt} stash pop` → run demo.py → must exit non-zero; (2) run the test suite with the change and confirm the same tests pass as without it. Leave the worktree with your change applied. Report in your final message: the summary, what it needs to manifest, and the results of (1) and (2).""")
+Before finishing: (1) write patch.diff, then `git -C {wt} apply -R {out}/patch.diff` → run demo.py → must exit 0; `git -C {wt} apply {out}/patch.diff` → run demo.py → must exit non-zero (do NOT use `git stash`: the stash is shared with other worktrees); (2) run the test suite with the change and confirm the same tests pass as without it. Leave the worktree with your change applied. Report in your final message: the summary, what it needs to manifest, and the results of (1) and (2).""")
